@@ -22,12 +22,15 @@ if [ -n "$demo" ]; then
 fi
 run_demo() {  # returns 0 if demo passes
   if [ -n "$demo" ]; then
+    # run exactly the test functions the demonstration file defines
+    pat=$(grep -o 'func Test[A-Za-z0-9_]*' "$demo" | sed 's/func //' | paste -sd'|')
+    DEMO_RUN="^(${pat})\$"
     cp "$demo" "$pkgdir/zz_demo_test.go"
     if [ "$pkgdir" = "." ]; then
       # a demo in the root package would run TestMain (fixed ports): serialise
-      flock /tmp/mtb-ports.lock go test -vet=off -count=1 -timeout 20m -run "${DEMO_RUN:-Test(C[0-9]|Demo|Seed)}" . >>"$LOG" 2>&1; rc=$?
+      flock /tmp/mtb-ports.lock go test -vet=off -count=1 -timeout 20m -run "$DEMO_RUN" . >>"$LOG" 2>&1; rc=$?
     else
-      go test -vet=off -count=1 -timeout 20m -run "${DEMO_RUN:-.}" ./$pkgdir/ -run "${DEMO_RUN:-Test(C[0-9]|Demo|Seed)}" >>"$LOG" 2>&1; rc=$?
+      go test -vet=off -count=1 -timeout 20m -tags "${DEMO_TAGS:-}" -run "$DEMO_RUN" ./$pkgdir/ >>"$LOG" 2>&1; rc=$?
     fi
     rm -f "$pkgdir/zz_demo_test.go"; git checkout -q -- go.mod go.sum 2>/dev/null
     return $rc
